@@ -70,6 +70,9 @@ func runC03(c *eng.Ctx) {
 		[]string{"server.(*partition).messageProcessingLoop", "server.(*partition).commitLoop", "server.(*partition).handleReplicationResponse"})
 	c.Floor(3)
 
+	ruleFastPathGate(c)
+	c.Floor(4)
+
 	// ---- R03.3 lost wake-up freedom
 	c.Rule("R03.3", "K4")
 	ctorExempt := map[string]string{"server/commitlog.(*commitLog).open": "runs before the log is published (open ← New)"}
@@ -98,6 +101,18 @@ func runC03(c *eng.Ctx) {
 				c.Check(g && len(eq) > 0, "waiter registration", c.Pos(mu), "registered only on the l.hw == hw edge", "waiter registered although the watermark already changed: "+w.String())
 			}
 		})
+	}
+	if fn := c.Fn("server/commitlog.(*commitLog).waitForHW"); fn != nil {
+		// every caller gets either an immediate answer or a registration: no path to the return without a send or a map insert
+		q := &eng.PathQuery{Fn: fn, FromEntry: true, Target: isReturn, CutInstr: func(x ssa.Instruction) bool {
+			switch x.(type) {
+			case *ssa.Send, *ssa.MapUpdate:
+				return true
+			}
+			return false
+		}}
+		w := q.Find()
+		c.Check(w == nil, "waiter is answered or registered", p.Pos(fn.Pos()), "every path to the return passes a send on the waiter channel or its registration in hwWaiters", "waitForHW can return a channel that nobody will ever send on (path "+w.String()+"): the reader parks for ever")
 	}
 	for _, k := range []string{"server/commitlog.(*commitLog).notifyHWChange", "server/commitlog.(*commitLog).notifyReadonly"} {
 		fn := c.Fn(k)
@@ -180,6 +195,11 @@ func runC03(c *eng.Ctx) {
 	}
 	c.Floor(5)
 
+	// ---- R03.8 acquire/release pairing
+	c.Rule("R03.8", "K2")
+	ruleLockPairing(c, "commitlog/commitlog.go", "commitlog/reader.go", "commitlog/segment.go", "commitlog/index.go")
+	c.Floor(40)
+
 	// ---- R03.4 read limit and re-sync
 	c.Rule("R03.4", "K1")
 	if fn := c.Fn("server/commitlog.(*committedReader).readLoop"); fn != nil {
@@ -261,8 +281,22 @@ func runC03(c *eng.Ctx) {
 				c.Check(w == nil, "re-sync after wake-up", c.Pos(wc.(ssa.Instruction)), "no path from the wake-up to the next ReadAt avoids getHWPos", "after a wake-up the reader can read again with a stale watermark position (path "+w.String()+")")
 			}
 			// the result of getHWPos is what is stored
+			hwF := p.Field(clPkg, "committedReader", "hw")
 			for _, gc := range eng.CallsIn(fn, "server/commitlog.getHWPos") {
 				gv := gc.(*ssa.Call)
+				g, w := eng.PrecededBy(fn, gv, func(x ssa.Instruction) bool {
+					st, ok := x.(*ssa.Store)
+					if !ok {
+						return false
+					}
+					fa, ok := st.Addr.(*ssa.FieldAddr)
+					return ok && fieldIs(fa, hwF) && isHWValue(st.Val)
+				})
+				c.Check(g, "reader adopts the new watermark before positioning", c.Pos(gv), "r.hw = HighWatermark() precedes getHWPos", "the reader computes the watermark position without having stored the new watermark (path "+w.String()+"): it keeps reading up to a stale position or spins")
+				changed := eng.CmpEdges(fn, isHWValue, eng.Load(hwF, nil), eng.NE)
+				q := &eng.PathQuery{Fn: fn, FromAfter: []ssa.Instruction{rd}, Target: func(x ssa.Instruction) bool { return x == ssa.Instruction(gv) }, CutEdges: changed, CutInstr: func(x ssa.Instruction) bool { return x == ssa.Instruction(rd) }}
+				w2 := q.Find()
+				c.Check(w2 == nil && len(changed) > 0, "reader at the watermark waits for a change", c.Pos(gv), "getHWPos is reached only over the hw != r.hw edge", "a reader that hit the watermark re-positions without the watermark having changed (path "+w2.String()+")")
 				okStore := false
 				for _, st := range eng.FieldStores(fn, func(fa *ssa.FieldAddr) bool { return fieldIs(fa, hwPosF) }) {
 					if e, ok := st.Val.(*ssa.Extract); ok && e.Tuple == gv && e.Index == 1 {
@@ -285,7 +319,7 @@ func runC03(c *eng.Ctx) {
 		fe := eng.CallsIn(fn, "server/commitlog.segment.findEntry")
 		c.Check(len(fe) == 1 && eng.Param("hw")(fe[0].Common().Args[1]), "getHWPos looks up hw", p.Pos(fn.Pos()), "findEntry(hw)", "getHWPos does not look up the entry of the high watermark offset")
 	}
-	c.Floor(6)
+	c.Floor(8)
 
 	// ---- R03.5 committed readers only
 	c.Rule("R03.5", "K5")
@@ -326,7 +360,11 @@ func runC03(c *eng.Ctx) {
 			if parked {
 				c.Check(g, "parked reader returned", c.Pos(r), "only when offset > hw or the log is empty", "a segment-less (parked) reader is returned on a path where the offset is committed and the log non-empty")
 			} else {
-				c.Check(!g, "positioned reader returned", c.Pos(r), "only when offset <= hw and the log is non-empty", "a positioned reader is returned although the offset is beyond the high watermark: it would read uncommitted data")
+				within := eng.CmpEdges(fn, eng.Param("offset"), eng.Call(-1, "server/commitlog.commitLog.HighWatermark"), eng.LE)
+				nonEmpty := eng.CmpEdges(fn, eng.Call(-1, "server/commitlog.commitLog.OldestOffset"), eng.IntConst(-1), eng.NE)
+				g1, w1 := eng.GuardedBy(fn, r, within)
+				g2, _ := eng.GuardedBy(fn, r, nonEmpty)
+				c.Check(!g && g1 && g2 && len(within) > 0 && len(nonEmpty) > 0, "positioned reader returned", c.Pos(r), "only when offset <= hw and the log is non-empty", "a positioned reader can be returned although the offset is beyond the high watermark or the log is empty (path "+w1.String()+"): it would read uncommitted data")
 			}
 		}
 		if n < 2 {
@@ -357,12 +395,27 @@ func runC03(c *eng.Ctx) {
 	if fn := c.Fn("server/commitlog.(*committedReader).waitForHW"); fn != nil {
 		// readonly signal -> ErrCommitLogReadonly; close / cancel -> io.EOF
 		ro := false
+		sig := func(v ssa.Value) bool {
+			e, ok := v.(*ssa.Extract)
+			if !ok {
+				return false
+			}
+			_, isSel := e.Tuple.(*ssa.Select)
+			return isSel && e.Type().String() == "bool" && e.Index >= 2
+		}
+		isRO := eng.BoolEdges(fn, sig, true)
+		notRO := eng.BoolEdges(fn, sig, false)
 		for _, r := range eng.Returns(fn) {
 			if eng.Global("server/commitlog.ErrCommitLogReadonly")(r.Results[0]) {
-				ro = true
+				g, _ := eng.GuardedBy(fn, r, isRO)
+				ro = g && len(isRO) > 0
+			}
+			if eng.NilConst(r.Results[0]) {
+				g, w := eng.GuardedBy(fn, r, notRO)
+				c.Check(g && len(notRO) > 0, "plain wake-up returns nil only on the change signal", c.Pos(r), "nil only when the waiter received false", "waitForHW can return nil (keep reading) on the read-only signal (path "+w.String()+")")
 			}
 		}
-		c.Check(ro, "readonly wake-up reported", p.Pos(fn.Pos()), "returns ErrCommitLogReadonly on the readonly signal", "the readonly signal is not turned into ErrCommitLogReadonly")
+		c.Check(ro, "readonly wake-up reported", p.Pos(fn.Pos()), "returns ErrCommitLogReadonly exactly on the readonly signal", "the readonly signal is not (only) what is turned into ErrCommitLogReadonly")
 	}
 	c.Floor(6)
 }
@@ -413,4 +466,48 @@ func readerSegIsNil(v ssa.Value) bool {
 		}
 	}
 	return found && isNil
+}
+
+// ruleFastPathGate (R03.2, shared with C02): the leader's direct watermark advance in messageProcessingLoop is only
+// taken when the partition has a single replica; with followers the watermark may only move through the commit loop.
+func ruleFastPathGate(c *eng.Ctx) {
+	fn := c.Fn("server.(*partition).messageProcessingLoop")
+	if fn == nil {
+		return
+	}
+	isRF1 := func(v ssa.Value) bool {
+		return eng.BinComm(token.EQL, eng.LoadNamed("ReplicationFactor", nil), eng.IntConst(1))(v)
+	}
+	// the guard variable: a phi whose leaves are `ReplicationFactor == 1` or the constant false
+	var okGuard func(v ssa.Value, seen map[ssa.Value]bool) bool
+	okGuard = func(v ssa.Value, seen map[ssa.Value]bool) bool {
+		if seen[v] {
+			return true
+		}
+		seen[v] = true
+		if isRF1(v) {
+			return true
+		}
+		if k, ok := v.(*ssa.Const); ok && k.Value != nil && k.Value.String() == "false" {
+			return true
+		}
+		if ph, ok := v.(*ssa.Phi); ok {
+			for _, e := range ph.Edges {
+				if !okGuard(e, seen) {
+					return false
+				}
+			}
+			return true
+		}
+		return false
+	}
+	for _, sh := range eng.CallsIn(fn, clSetI) {
+		edges := eng.BoolEdges(fn, func(v ssa.Value) bool { return okGuard(v, map[ssa.Value]bool{}) && !eng.IsConst(v) }, true)
+		g, w := eng.GuardedBy(fn, sh.(ssa.Instruction), edges)
+		c.Check(g && len(edges) > 0, "leader fast path only without followers", c.Pos(sh.(ssa.Instruction)), "SetHighWatermark in the leader loop is guarded by a flag that can only be true when ReplicationFactor == 1", "the leader advances the high watermark directly on a partition that may have followers (path "+w.String()+"): messages become visible and 'committed' before any follower stored them")
+		// the value is the last offset of the batch just appended
+		i := indexOfLoad(eng.AllArgs(sh.Common())[1])
+		okV := i != nil && eng.Call(0, "server/commitlog.CommitLog.Append")(i.X)
+		c.Check(okV, "fast path commits what was just appended", c.Pos(sh.(ssa.Instruction)), "SetHighWatermark(offsets[len-1]) of Append's result", "the fast path advances the watermark to something other than the last offset Append returned")
+	}
 }
